@@ -205,7 +205,8 @@ func c18r2(c *Ctx, id string) {
 	ns := w.Func("stream", "NewStream")
 	c.need(ns != nil, id, "stream.NewStream")
 	c.see(ns)
-	f := w.Field("stream", "stream", "streamEndNotSupportedData")
+	sfName, _ := w.serialCloseField()
+	f := w.Field("stream", "stream", sfName)
 	n := 0
 	allInstrs(ns, func(in ssa.Instruction) {
 		st, ok := in.(*ssa.Store)
